@@ -217,17 +217,34 @@ def norm_col(c):
     return [c[0], c[1], bool(c[2]), list(c[3])]
 
 
+# "for all schemas": a column may DECLARE a default (`FlatColumn.default`).  The statement knows no defaults: every schema
+# column must be present in the record, whatever the column declares.  A case says which of its columns declare one with
+# `"defaults": {column name: value tag}`; while the case runs every column of that name the harness makes declares it
+# (also columns added or replaced later in a session).
+DEFAULTS = {}
+DEFAULT_SET_AFTERWARDS = collections.Counter()
+
+
 def make_col(c):
     from orso.schema import FlatColumn
     from orso.types import OrsoTypes
 
     name, ty, nullable, aliases = norm_col(c)
+    kw = {} if ty is None else {"type": OrsoTypes[ty]}
     with warnings.catch_warnings():
         warnings.simplefilter("ignore")
         # a record key equal to an alias is NOT the column's name
-        if ty is None:
-            return FlatColumn(name=name, nullable=nullable, aliases=list(aliases))
-        return FlatColumn(name=name, type=OrsoTypes[ty], nullable=nullable, aliases=list(aliases))
+        tag = DEFAULTS.get(name)
+        if tag is not None:
+            try:
+                # the constructor parses a default to the column's type and refuses what it cannot parse
+                return FlatColumn(name=name, nullable=nullable, aliases=list(aliases), default=POOL[tag], **kw)
+            except Exception:
+                col = FlatColumn(name=name, nullable=nullable, aliases=list(aliases), **kw)
+                col.default = POOL[tag]     # ... an attribute of a dataclass can also simply be assigned
+                DEFAULT_SET_AFTERWARDS[ty] += 1
+                return col
+        return FlatColumn(name=name, nullable=nullable, aliases=list(aliases), **kw)
 
 
 # the ways a RelationSchema with given columns comes to be ("for all schemas": however they were made)
@@ -438,13 +455,14 @@ def same_rows(after, before):
     return len(after) == len(before) and all(a is b for a, b in zip(after, before))
 
 
-def append_step(df, schema, cols, tags, kind, before, rows_now, lazy_first=False):
-    """One append of the tagged record (as an object of `kind`) to `df`, judged against `cols`.
-    Returns (clause, result, stored row or None, rows after)."""
+def append_step(df, schema, cols, tags, kind, before, rows_now, lazy_first=False, rec=None):
+    """One append of the tagged record (as an object of `kind`; `rec`: the caller's own object, which says `tags` now) to
+    `df`, judged against `cols`.  Returns (clause, result, stored row or None, rows after)."""
     from orso.exceptions import DataError
 
     names = [c[0] for c in cols]
-    rec = record_of(tags, kind, names)
+    if rec is None:
+        rec = record_of(tags, kind, names)
     view = record_view(tags, kind)
     mutable = isinstance(rec, collections.abc.MutableMapping)
     want = expected(cols, view) if view is not None else None
@@ -1159,7 +1177,25 @@ def apply_to_schema(schema, op):
     elif k == "reverse":
         schema.columns.reverse()
     elif k == "touch":
-        what = op[1]
+        try:
+            return touch_schema(schema, op[1])
+        except BadCase:
+            raise
+        except Exception as e:
+            # what a helper of the schema answers (or that it raises) is not this property's business: the session goes on
+            # with the object as it is; counted in the evidence
+            TOUCH_RAISED["%s:%s" % (op[1], type(e).__name__)] += 1
+            return schema
+    else:
+        raise BadCase("op %r" % (k,))
+    return schema
+
+
+TOUCH_RAISED = collections.Counter()
+
+
+def touch_schema(schema, what):
+    if True:
         with warnings.catch_warnings():
             warnings.simplefilter("ignore")
             if what == "names":
@@ -1189,8 +1225,6 @@ def apply_to_schema(schema, op):
                 schema.to_dict()
             else:
                 raise BadCase("touch %r" % (what,))
-    else:
-        raise BadCase("op %r" % (k,))
     return schema
 
 
@@ -1246,6 +1280,8 @@ def reduce_session(case, clause, fresh=False):
             plain["how"] = op[3]
     if case.get("via") not in (None, "direct") and not (case["via"] == "arrow-schema" and not all(c[1] in ARROW_ROWS for c in cur)):
         plain["via"] = case["via"]   # a freshly built schema with the columns of that moment, made the same way
+    if case.get("defaults"):
+        plain["defaults"] = case["defaults"]   # ... whose columns declare the same defaults
     try:
         if valid_case(plain):
             out = fresh_run(plain) if fresh else UNAVAILABLE
@@ -1545,6 +1581,9 @@ def valid_case(c):
         if not raw_cols_ok(c["cols"]):
             return False
         cols = [norm_col(x) for x in c["cols"]]
+        if "defaults" in c and not (isinstance(c["defaults"], dict) and all(isinstance(k_, str) and t_ in POOL and t_ != "none" and t_ not in UNSIZABLE
+                                                                          for k_, t_ in c["defaults"].items())):
+            return False
         if not names_ok(cols, dup=kind in ("validate", "appends", "bound") and c.get("how") != "arrow" and c.get("via") != "arrow-schema"):
             return False
         if c.get("via", "direct") not in ROUTES or (c.get("via") == "arrow-schema" and not all(x[1] in ARROW_ROWS for x in cols)):
@@ -1557,6 +1596,8 @@ def valid_case(c):
             return check_family(c)
         if kind == "bound":
             return check_bound(c)
+        if kind == "reuse":
+            return check_reuse(c)
         if kind != "appends":
             return False
         if c.get("how", "list") not in ("list", "none", "gen", "arrow") or (c.get("how") == "none" and c["rows"]):
@@ -1663,8 +1704,155 @@ def run_multi(case):
     return clause, got
 
 
+# ----------------------------------------------------------------------------- one record object, edited in place and used again
+#
+# The caller keeps ONE record object, fills it, validates or appends it, edits it in place (adds a key that is no column,
+# removes a key, changes a value to None or to another class) and uses it again.  Every use is judged from scratch against
+# what the object says at that moment; a stored row is what the object said when it was appended (later edits of the object
+# do not reach into the frame).  A case:
+#   {"kind": "reuse", "cols": [...], "rows": [...], "how": "list", "objs": [[container, tags], ...], "ops": [...]}   ops:
+#   ["validate", k] / ["append", k]        record object k through schema.validate / through append on the one frame
+#   ["put", k, key, value tag]             obj[key] = value (a new key goes last)
+#   ["drop", k, key]                       del obj[key]
+#   ["fresh", k]                           the caller starts over with a NEW object that says the same (the control)
+
+REUSE_KINDS = ("dict", "OrderedDict", "defaultdict", "UserDict", "MyDict", "MyMutableMapping", "ChainMap")
+EDITED_OBJECT = ("the verdict on a record depends on what the same record object said when it was used before (the caller edited it in "
+                 "place in between): a new object that says the same is judged differently")
+
+
+def run_reuse(case):
+    schema, cols = schema_for(case)
+    if schema is None:
+        return None, {"skipped": cols}
+    how = case.get("how", "list")
+    init = [tuple(POOL[t] for t in row) for row in case["rows"]]
+    df = make_frame(schema, init, how, cols)
+    objs = [record_of(tags, kind) for kind, tags in case["objs"]]
+    says = [dict(tags) for kind, tags in case["objs"]]
+    used = [False] * len(objs)
+    held, clause, results, outcomes, snaps = list(init), None, [], [], []
+    lazy = how == "gen"
+
+    def rows_now():
+        df.materialize()
+        return list(df._rows)
+
+    before = list(init) if lazy else rows_now()
+    first = True
+    for op in case["ops"]:
+        k, i = op[0], op[1]
+        c = None
+        if k == "put":
+            objs[i][real_key(op[2])] = POOL[op[3]]
+            says[i][op[2]] = op[3]
+        elif k == "drop":
+            if op[2] in says[i]:
+                del objs[i][real_key(op[2])]
+                del says[i][op[2]]
+        elif k == "fresh":
+            objs[i] = record_of(says[i], case["objs"][i][0])
+            used[i] = False
+        elif k == "validate":
+            view = plain_record(says[i])
+            got = impl_validate(schema, objs[i])
+            c = judge_validate(got, expected(cols, view))
+            outcomes.append(got)
+            if c is not None and used[i] and judge_validate(impl_validate(schema, record_of(says[i], case["objs"][i][0])), expected(cols, view)) is None:
+                c = EDITED_OBJECT
+            used[i] = True
+        elif k == "append":
+            c, result, stored, after = append_step(df, schema, cols, dict(says[i]), case["objs"][i][0], before, rows_now,
+                                                   lazy_first=(lazy and first), rec=objs[i])
+            first = False
+            snaps.append([dict(says[i]), case["objs"][i][0]])
+            results.append(result)
+            if result == ["ok"]:
+                held.append(stored)
+            before = after
+            used[i] = True
+        else:
+            raise BadCase("op %r" % (k,))
+        clause = clause or c
+    final = [tuple(r) for r in rows_now()]
+    if clause is None and (len(final) != len(held) or not all(wire_eq(a, tuple(b)) for a, b in zip(final, held))):
+        clause = "the frame does not hold exactly the accepted records, in order"
+    if clause is None:
+        clause = rows_conform(cols, final)
+    got = {"results": results, "rows": abstract_rows(final), "outcomes": outcomes, "appended": snaps}
+    if case.get("via") not in (None, "direct"):
+        got["cols"] = cols
+    return clause, got
+
+
+def check_reuse(c):
+    cols = [norm_col(x) for x in c["cols"]]
+    if c.get("how", "list") not in ("list", "none", "gen") or (c.get("how") == "none" and c["rows"]) or not rows_ok(cols, c["rows"]):
+        return False
+    if not c["objs"] or not all(isinstance(o, list) and len(o) == 2 and o[0] in REUSE_KINDS and isinstance(o[1], dict)
+                                and all(t in POOL for t in o[1].values()) for o in c["objs"]):
+        return False
+    for op in c["ops"]:
+        if not isinstance(op, list) or len(op) < 2 or not isinstance(op[1], int) or not 0 <= op[1] < len(c["objs"]):
+            return False
+        if op[0] in ("validate", "append", "fresh"):
+            if len(op) != 2:
+                return False
+        elif op[0] == "put":
+            if len(op) != 4 or not isinstance(op[2], str) or op[3] not in POOL or (op[2].startswith("\x01") and op[2][1:] not in KEYPOOL):
+                return False
+        elif op[0] == "drop":
+            if len(op) != 3 or not isinstance(op[2], str):
+                return False
+        else:
+            return False
+    return any(op[0] in ("validate", "append") for op in c["ops"])
+
+
+def reuse_line(case, got):
+    """what the model is asked: the appends of the session, each with what the object said at that moment"""
+    cols = got.get("cols") or [norm_col(c) for c in case["cols"]]
+    records = [r for r, _ in got["appended"]]
+    containers = {str(i): k for i, (_, k) in enumerate(got["appended"])}
+    return "C05 appends " + wire.line(cols, m_rows(case["rows"]), m_appends(records, containers, [c[0] for c in cols]))
+
+
+NOT_JUDGED = "the case could not be carried through: the library raised %s outside the calls of validate / append that are judged (%s)"
+
+
+def _total(fn):
+    """A runner that never crashes on a changed tree: the defaults the case's columns declare are in force while it runs; an
+    exception of the library in the glue around the judged calls (making the schema or the frame, reading the rows back) is
+    a verdict — on the unchanged tree there is none —, not an infrastructure error."""
+    import functools
+    import traceback
+
+    @functools.wraps(fn)
+    def run(case):
+        global DEFAULTS
+        saved = DEFAULTS
+        if case.get("kind") != "multi":
+            DEFAULTS = dict(case.get("defaults") or {})
+        try:
+            return fn(case)
+        except (InfraError, BadCase):
+            raise
+        except Exception as e:
+            frames = traceback.extract_tb(e.__traceback__)
+            mine = [f.name for f in frames if f.filename.endswith("c05.py")]
+            theirs = [f.name for f in frames if "/orso/" in f.filename]
+            where = "in %s" % mine[-1] if mine else "?"
+            if theirs:
+                where += ", from %s" % theirs[-1]
+            return NOT_JUDGED % (type(e).__name__, where), {"skipped": "not judged: %s %s" % (type(e).__name__, where)}
+        finally:
+            DEFAULTS = saved
+    return run
+
+
 RUNNERS = {"validate": run_validate, "appends": run_appends, "session": run_session, "dictframe": run_dictframe, "multi": run_multi,
-           "family": run_family, "bound": run_bound}
+           "family": run_family, "bound": run_bound, "reuse": run_reuse}
+RUNNERS = {k_: _total(f_) for k_, f_ in RUNNERS.items()}
 
 SHARED = ("the verdict depends on other schema objects used earlier in the same process (state shared between objects): "
           "alone, the last case of this sequence is judged correctly")
@@ -1991,6 +2179,10 @@ def evaluate(ctx, cases):
             lines.append(bound_line(c))
             owner.append((id(c), "m"))
             continue
+        if kind == "reuse":
+            lines.append(reuse_line(c, got))
+            owner.append((id(c), "m"))
+            continue
         if kind == "family":
             if got["script"] is None:
                 continue
@@ -2012,9 +2204,9 @@ def evaluate(ctx, cases):
         m = mouts.get((id(c), "m"))
         fn = run_case if c.get("pristine") else RUNNERS[kind]
         clause, got = ran[id(c)]
-        ctx.case(c, nontrivial=kind in ("dictframe", "multi", "session", "family", "bound") or len(c["cols"]) >= 1)
+        ctx.case(c, nontrivial=kind in ("dictframe", "multi", "session", "family", "bound", "reuse") or len(c["cols"]) >= 1)
         record_distribution(ctx, c, got)
-        if isinstance(got, dict) and got.get("skipped"):
+        if isinstance(got, dict) and got.get("skipped") and clause is None:
             HISTORY_BUF.add(c)
             continue
         if clause is not None:
@@ -2063,7 +2255,7 @@ def evaluate(ctx, cases):
                 if fresh is not False:
                     c_min = shrink(c, still, budget=400 if not fresh else 200)
                     smaller = drop_record_keys(c_min, still)
-                    for opt in ("via", "how", "container", "containers", "pre"):
+                    for opt in ("via", "how", "container", "containers", "pre", "defaults"):
                         # the options of a case, back to their defaults
                         if opt in smaller:
                             cand = {k_: v_ for k_, v_ in smaller.items() if k_ != opt}
@@ -2097,7 +2289,7 @@ def evaluate(ctx, cases):
                     ctx.hit("family:process-machine")
                     if mp[0] != got["frames"] or not results_agree(mp[1], got["results"]):
                         ctx.disagree(c, {k_: got[k_] for k_ in ("frames", "results")}, mp[:2], what="process machine and implementation differ")
-        elif kind == "appends":
+        elif kind in ("appends", "reuse"):
             if m[0] != got["rows"] or not results_agree(m[2], got["results"]):
                 ctx.disagree(c, got, m)
         elif kind == "bound":
@@ -2139,6 +2331,16 @@ def record_distribution(ctx, c, got):
         ctx.hit("schema-made:" + c["via"])
     if "cols" in c and len({x[0] for x in c["cols"]}) != len(c["cols"]):
         ctx.hit("schema:two-columns-of-one-name")
+    if c.get("defaults"):
+        ctx.hit("schema:columns-declare-defaults")
+        by_name = {x[0]: x for x in c["cols"]}
+        for n_, t_ in c["defaults"].items():
+            if n_ in by_name:
+                ctx.hit("default-declared-by:%s%s" % (by_name[n_][1] or "untyped", "" if by_name[n_][2] else " NOT NULL"))
+        recs = [c["record"]] if kind == "validate" else c["records"] if kind == "appends" else []
+        for r_ in recs:
+            if any(n_ in by_name and n_ not in r_ for n_ in c["defaults"]):
+                ctx.hit("record-omits-a-column-that-declares-a-default")
     if isinstance(got, dict) and got.get("skipped"):
         ctx.hit("skipped:" + got["skipped"])
         return
@@ -2190,6 +2392,30 @@ def record_distribution(ctx, c, got):
         if got["derived-content-differs"]:
             ctx.hit("family:derived-content-differs-from-plain-list-semantics", got["derived-content-differs"])
         ctx.hit("family-frames", len(got["frames"]))
+    elif kind == "reuse":
+        ctx.hit("frame-created:" + c.get("how", "list"))
+        edited = [None] * len(c["objs"])    # None: not used yet; False: used; a string: used, then edited that way
+        for op in c["ops"]:
+            ctx.hit("reuse-op:" + op[0])
+            if op[0] in ("put", "drop"):
+                if edited[op[1]] is not None:
+                    names = {x[0] for x in c["cols"]}
+                    how_ = ("removed-a-key" if op[0] == "drop" else "added-a-non-column-key" if op[2] not in names
+                            else "value-to-None" if op[3] == "none" else "value-changed")
+                    edited[op[1]] = how_
+            elif op[0] == "fresh":
+                edited[op[1]] = None
+            else:
+                if isinstance(edited[op[1]], str):
+                    ctx.hit("reuse:%s-again-after:%s" % (op[0], edited[op[1]]))
+                edited[op[1]] = False
+        for kind_, _ in c["objs"]:
+            if kind_ != "dict":
+                ctx.hit("reuse-record-object:" + kind_)
+        for r in got["results"]:
+            ctx.hit("reuse-append:" + r[0])
+        for o in got["outcomes"]:
+            ctx.hit("reuse-validate:" + o[0])
     elif kind == "bound":
         edited = appended = False
         for op in c["ops"]:
@@ -2294,12 +2520,109 @@ def with_route(rng, c, p=0.2):
     return c
 
 
+def default_for(rng, col):
+    """a value a column may declare as its default: mostly one of its own class (also falsy ones: 0, "", False, [], -0.0)"""
+    r = rng.random()
+    if col[1] is None or r < 0.1:
+        return rng.choice([t for t in ORDINARY if t != "none"])
+    return rng.choice(RIGHT[col[1]])
+
+
+def with_defaults(rng, c, p=0.15):
+    """some columns of the case's schema declare a default; records then tend to leave exactly those columns out"""
+    if rng.random() >= p or not c["cols"] or c.get("how") == "arrow":
+        return c
+    chosen = [col for col in c["cols"] if rng.random() < 0.6] or [rng.choice(c["cols"])]
+    c["defaults"] = {col[0]: default_for(rng, col) for col in chosen}
+
+    def omit(tags):
+        if rng.random() < 0.6:
+            for n in list(c["defaults"]):
+                if n in tags and rng.random() < 0.7:
+                    del tags[n]
+
+    if c["kind"] == "validate":
+        omit(c["record"])
+    elif c["kind"] == "appends":
+        for r in c["records"]:
+            omit(r)
+    elif c["kind"] == "bound":
+        for op in c["ops"]:
+            if op[0] == "append":
+                omit(op[2])
+    elif c["kind"] == "session":
+        for op in c["ops"]:
+            if op[0] == "validate":
+                omit(op[1])
+            elif op[0] == "frame":
+                for r in op[2]:
+                    omit(r)
+    elif c["kind"] == "family":
+        for op in c["ops"]:
+            if op[0] == "append":
+                omit(op[2])
+    if c.get("via") in ("type-name", "constant-columns", "function-columns", "arrow-schema"):
+        del c["via"]      # routes on which the harness's columns are not made by make_col
+    return c
+
+
 def gen_validate(rng):
     cols = with_dups(rng, gen_cols(rng), 0.06)
     c = {"kind": "validate", "cols": cols, "record": gen_record_tags(rng, cols)}
     if rng.random() < 0.25:
         c["container"] = rng.choice(RECORD_KINDS)
-    return no_arrow_dups(with_route(rng, c))
+    return with_defaults(rng, no_arrow_dups(with_route(rng, c)))
+
+
+def gen_reuse(rng):
+    cols = gen_cols(rng, rng.randint(0, 4))
+    names = [c[0] for c in cols]
+    rows = gen_init_rows(rng, cols, rng.choice([0, 0, 1]))
+    c = {"kind": "reuse", "cols": cols, "rows": rows,
+         "objs": [[rng.choice(REUSE_KINDS) if rng.random() < 0.3 else "dict", gen_record_tags(rng, cols, 0.8)] for _ in range(rng.choice([1, 1, 1, 2]))], "ops": []}
+    r = rng.random()
+    if r < 0.2:
+        c["how"] = "gen"
+    elif r < 0.4 and not rows:
+        c["how"] = "none"
+    says = [dict(o[1]) for o in c["objs"]]
+    for _ in range(rng.randint(3, 10)):
+        i = rng.randrange(len(says))
+        r = rng.random()
+        if r < 0.25:
+            c["ops"].append(["validate", i])
+        elif r < 0.5:
+            c["ops"].append(["append", i])
+        elif r < 0.55:
+            c["ops"].append(["fresh", i])
+        else:
+            r2 = rng.random()
+            if r2 < 0.3:       # a key that is no column (an alias, a look-alike, a non-string key, the name of no column at all)
+                pool = ["zz", "extra", "comment", "\x01" + rng.choice(list(KEYPOOL))]
+                if cols:
+                    col = rng.choice(cols)
+                    pool += list(col[3])[:2] + [col[0].upper(), col[0] + " "]
+                key = rng.choice([k for k in pool if k not in names] or ["zz"])
+                op = ["put", i, key, rng.choice(ORDINARY)]
+            elif r2 < 0.5 and says[i]:
+                op = ["drop", i, rng.choice(list(says[i]))]
+            elif cols:
+                col = rng.choice(cols)
+                r3 = rng.random()
+                tag = "none" if r3 < 0.3 else rng.choice(RIGHT[col[1]]) if (col[1] and r3 < 0.7) else rng.choice(ORDINARY)
+                op = ["put", i, col[0], tag]
+            else:
+                continue
+            c["ops"].append(op)
+            if op[0] == "put":
+                says[i][op[2]] = op[3]
+            else:
+                says[i].pop(op[2], None)
+            if rng.random() < 0.7:
+                c["ops"].append([rng.choice(["validate", "append"]), i])
+    if not any(op[0] in ("validate", "append") for op in c["ops"]):
+        c["ops"].append(["append", 0])
+    return with_defaults(rng, with_route(rng, c, 0.1))
 
 
 def gen_init_rows(rng, cols, n):
@@ -2352,7 +2675,7 @@ def gen_appends(rng):
         recs = c["records"]
     if rng.random() < 0.3:
         c["containers"] = {str(i): rng.choice(RECORD_KINDS) for i in range(len(recs)) if rng.random() < 0.5}
-    return c if c.get("how") == "arrow" else no_arrow_dups(with_route(rng, c))
+    return c if c.get("how") == "arrow" else with_defaults(rng, no_arrow_dups(with_route(rng, c)))
 
 
 def gen_mutation(rng, cur, retired, fresh_i):
@@ -2453,7 +2776,7 @@ def gen_session(rng):
             elif rng.random() < 0.2:
                 op.append("gen")
             ops.append(op)
-    return with_route(rng, {"kind": "session", "cols": cols, "ops": ops}, 0.15)
+    return with_defaults(rng, with_route(rng, {"kind": "session", "cols": cols, "ops": ops}, 0.15), 0.1)
 
 
 def with_dups(rng, cols, p):
@@ -2517,7 +2840,7 @@ def gen_bound(rng):
             how = rng.choice(["list", "list", "gen", "none"])
             ops.append(["bind", [] if how == "none" else gen_init_rows(rng, cur, rng.choice([0, 1])), how])
             n += 1
-    return {"kind": "bound", "cols": cols, "ops": ops}
+    return with_defaults(rng, {"kind": "bound", "cols": cols, "ops": ops}, 0.1)
 
 
 def bound_table():
@@ -2719,7 +3042,7 @@ def gen_family(rng, process=False, unique=True):
         c["how"] = how
     if process and rng.random() < 0.7:
         c["pre"] = [gen_feature(rng, cols) for _ in range(rng.randint(1, 2))]
-    return c if how == "arrow" else with_route(rng, c, 0.15)
+    return c if how == "arrow" else with_defaults(rng, with_route(rng, c, 0.15), 0.08)
 
 
 def gen_dictframe(rng):
@@ -3001,6 +3324,90 @@ def process_table():
                "ops": [["touch", 0, touch], ["append", 0, good], ["derive", 0, "head", [5]], ["touch", 1, touch], ["append", 1, good2], ["append", 0, good2]]}
 
 
+def defaults_table():
+    """Schemas whose columns declare defaults (a default of every type kind, right and wrong for the column, falsy ones, on nullable
+    and non-nullable columns, on one / some / all columns) x records that leave those columns out, give them, or give None:
+    through validate and through append on frames created each way.  The statement knows no defaults."""
+    for ty in TYPES + [None]:
+        for nullable in (True, False):
+            rights = RIGHT[ty] if ty else ["int", "str", "list"]
+            other = {"c1": "int"}
+            for dtag in list(rights) + ["str" if ty != "VARCHAR" else "int"]:
+                cols = [["c0", ty, nullable, []], ["c1", "INTEGER", False, []]]
+                for rec in ({"c1": "int"}, {"c0": rights[0], "c1": "int"}, {"c0": "none", "c1": "int"}, {}, {"c1": "int", "zz": "int"}):
+                    yield {"kind": "validate", "cols": cols, "record": rec, "defaults": {"c0": dtag}}
+                for how in ("list", "none", "gen"):
+                    yield {"kind": "appends", "cols": cols, "rows": [], "how": how, "defaults": {"c0": dtag},
+                           "records": [{"c0": rights[0], "c1": "int"}, {"c1": "int"}, {"c0": "none", "c1": "int"}, {"c1": "int"}, {}]}
+    a, b, d = ["a", "VARCHAR", False, []], ["b", "VARCHAR", False, []], ["d", "INTEGER", True, []]
+    full = {"a": "str", "b": "str", "d": "int"}
+    for defaults in ({"b": "str"}, {"b": "empty"}, {"d": "int0"}, {"d": "int"}, {"b": "str", "d": "int0"}, {"a": "str", "b": "str", "d": "int"},
+                     {"a": "empty", "b": "empty", "d": "int0"}, {"zz": "int"}):
+        recs = [full, {"a": "str"}, {"a": "str", "b": "str"}, {"a": "str", "d": "int"}, {}, {"b": "str", "d": "int"}, {"a": "str", "zz": "int"}, full]
+        for rec in recs:
+            yield {"kind": "validate", "cols": [a, b, d], "record": rec, "defaults": defaults}
+        for how in ("list", "none", "gen"):
+            yield {"kind": "appends", "cols": [a, b, d], "rows": [["str", "str", "int"]] if how != "none" else [], "how": how, "records": recs, "defaults": defaults}
+        for kind in ("UserDict", "OrderedDict", "MyMutableMapping", "mappingproxy"):
+            yield {"kind": "appends", "cols": [a, b, d], "rows": [], "records": recs, "containers": {str(i): kind for i in range(len(recs))}, "defaults": defaults}
+        for via in ("dict-roundtrip", "json-roundtrip", "deepcopy", "copy", "pickle", "sum"):
+            yield {"kind": "appends", "cols": [a, b, d], "rows": [], "records": recs, "defaults": defaults, "via": via}
+        yield {"kind": "bound", "cols": [a, b, d], "defaults": defaults,
+               "ops": [["bind", []], ["append", 0, full], ["append", 0, {"a": "str"}], ["set", 1, ["b2", "VARCHAR", False, []]],
+                       ["append", 0, {"a": "str", "d": "int"}], ["append", 0, {"a": "str", "b2": "str", "d": "int"}], ["add", ["b", "VARCHAR", True, []]],
+                       ["append", 0, {"a": "str", "b2": "str", "d": "int"}]]}
+        yield {"kind": "session", "cols": [a, b, d], "defaults": defaults,
+               "ops": [["validate", full], ["validate", {"a": "str"}], ["frame", [], [full, {"a": "str"}, {"a": "str", "b": "str"}]], ["del", 2],
+                       ["validate", {"a": "str"}], ["frame", [], [{"a": "str"}, {"a": "str", "b": "str"}], "none"]]}
+        yield {"kind": "family", "cols": [a, b, d], "rows": [["str", "str", "int"]], "defaults": defaults,
+               "ops": [["append", 0, {"a": "str"}], ["derive", 0, "head", [1]], ["append", 1, {"a": "str", "d": "int"}], ["append", 1, full]]}
+        yield {"kind": "reuse", "cols": [a, b, d], "rows": [], "defaults": defaults, "objs": [["dict", dict(full)]],
+               "ops": [["append", 0], ["drop", 0, "b"], ["validate", 0], ["append", 0], ["drop", 0, "d"], ["append", 0], ["put", 0, "b", "str"], ["append", 0]]}
+
+
+def reuse_table():
+    """One record object used, edited in place, used again: every kind of edit x validate / append before x validate / append after
+    x record object x way the frame was created; runs of the same keys before the edit; two objects taking turns."""
+    a, b = ["a", "INTEGER", False, ["id"]], ["b", "VARCHAR", True, []]
+    full = {"a": "int", "b": "str"}
+    edits = [
+        [["put", 0, "comment", "str"]], [["put", 0, "id", "int"]], [["put", 0, "\x01int1", "int"]], [["put", 0, "A", "int"]],     # a key that is no column
+        [["drop", 0, "b"]], [["drop", 0, "a"]], [["drop", 0, "a"], ["drop", 0, "b"]],                                           # a key removed
+        [["put", 0, "a", "none"]], [["put", 0, "b", "none"]], [["put", 0, "a", "str"]], [["put", 0, "b", "int"]], [["put", 0, "a", "true"]],   # a value changed
+        [["put", 0, "a", "bigint"], ["put", 0, "b", "empty"]],                                                                    # ... and still conforming
+        [["drop", 0, "b"], ["put", 0, "comment", "str"]], [["put", 0, "comment", "str"], ["drop", 0, "comment"]],              # as many keys as before; undone
+        [["drop", 0, "a"], ["put", 0, "a", "int"]],                                                                               # same keys, other order
+        [["put", 0, "a", "int70"]],                                                                                               # cannot be sized any more
+    ]
+    for edit in edits:
+        for first in (["validate"], ["append"], ["append", "append"], ["validate", "append"]):
+            for again in (["validate"], ["append"], ["validate", "append"], ["append", "validate"]):
+                for kind in ("dict", "UserDict", "OrderedDict"):
+                    for how in ("list", "gen") if kind == "dict" else ("list",):
+                        ops = [[f, 0] for f in first] + [list(e) for e in edit] + [[g, 0] for g in again]
+                        # ... and the same verdicts once more, after the edit was taken back by starting over
+                        ops += [["fresh", 0]] + [[g, 0] for g in again]
+                        yield {"kind": "reuse", "cols": [a, b], "rows": [["int", "str"]] if how == "gen" else [], "how": how, "objs": [[kind, dict(full)]], "ops": ops}
+    # a loader that fills one object again and again, then the object picks up / loses a key
+    for n in (1, 2, 3, 5):
+        for edit in edits[:8]:
+            ops = []
+            for i in range(n):
+                ops += [["put", 0, "a", ["int", "int0", "bigint"][i % 3]], ["put", 0, "b", ["str", "empty", "none"][i % 3]], ["append", 0]]
+            ops += [list(e) for e in edit] + [["validate", 0], ["append", 0], ["validate", 0]]
+            yield {"kind": "reuse", "cols": [a, b], "rows": [], "how": "none", "objs": [["dict", dict(full)]], "ops": ops}
+    # two objects taking turns; the second is edited while the first was the last one seen, and the other way round
+    for edit in edits[:8]:
+        for order in ([0, 1], [1, 0], [0, 1, 0], [1, 1, 0]):
+            ops = [["append", i] for i in order] + [list(e) for e in edit] + [["validate", 0], ["append", 0], ["append", 1], ["validate", 1], ["append", 0]]
+            yield {"kind": "reuse", "cols": [a, b], "rows": [], "objs": [["dict", dict(full)], ["dict", {"b": "str", "a": "int0"}]], "ops": ops}
+    # an object that starts non-conforming and is repaired in place; an empty schema
+    for start, fix in (({"a": "int"}, ["put", 0, "b", "str"]), ({"a": "int", "b": "str", "zz": "int"}, ["drop", 0, "zz"]), ({"a": "none", "b": "str"}, ["put", 0, "a", "int"])):
+        for use in ("validate", "append"):
+            yield {"kind": "reuse", "cols": [a, b], "rows": [], "objs": [["dict", start]], "ops": [[use, 0], fix, [use, 0], ["append", 0]]}
+    yield {"kind": "reuse", "cols": [], "rows": [], "objs": [["dict", {}]], "ops": [["validate", 0], ["append", 0], ["put", 0, "zz", "int"], ["validate", 0], ["append", 0]]}
+
+
 def session_table():
     """Use -> change -> use again, once for every way the column list of one schema object can change."""
     a, b, d = ["a", "INTEGER", False, ["id"]], ["b", "VARCHAR", True, []], ["d", "DOUBLE", True, []]
@@ -3051,8 +3458,12 @@ def run(ctx):
     sizes = list(sizes_table())
     bound = list(bound_table())
     dups = list(dup_table())
-    cases += sess + fam + proc + routes + sizes + dups + bound
+    dflt = list(defaults_table())
+    reuse = list(reuse_table())
+    cases += sess + fam + proc + routes + sizes + dups + bound + dflt + reuse
     evaluate(ctx, cases)
+    ctx.note("reuse_scope", "one record object used, edited in place by its owner, used again: every kind of edit (a key that is no column — a plain name, an alias, a non-string key, the name in another case —, a key removed, a value set to None / to another class / to another value of the same class / to one that cannot be sized, as many keys as before, an edit that is undone, the same keys in another order) x validate / append before x validate / append after x dict / UserDict / OrderedDict x frame created from a list / None / a generator; a loader refilling one object n times before the edit; two objects taking turns; an object repaired in place (%d cases); every use is judged from scratch against what the object says at that moment, and once more on a new object that says the same" % len(reuse))
+    ctx.note("defaults_scope", "schemas whose columns declare defaults: every column type (and untyped) x nullable x a default of each value of the type's class, a wrongly typed one, falsy ones (0, '', False, [], -0.0), on one / some / all columns and on no column of the schema x records that omit those columns, give them, give None, are empty, carry an excess key: through validate, through append on frames created each way, with other record objects, on schemas made by six routes, on bound frames, sessions, families and reused record objects (%d cases); the statement knows no defaults: every schema column must be present, and append must agree with validate" % len(dflt))
     ctx.note("bound_scope", "bound table: append (or read column_names / description / columncount off the frame, or nothing) -> the owner edits the shared schema (rename in place, swap names, reverse, add, insert, delete, pop, replace with as many / other / reordered / no columns, retype, edits that undo each other, a second column of an existing name) -> optionally read the frame's names again / read another frame's names / touch the schema -> append a record written for the schema as it is now, one written for the schema as it was, and the first with its keys reversed; x frame created from a list / None / a generator; two frames on the one schema with the edit between their appends (%d cases); every append is judged against the columns as they are at that moment" % len(bound))
     ctx.note("duplicate_names_scope", "schemas in which two or more columns bear one name (same type / different types / different nullability; made by the constructor and as the sum of two relations that share a column name) x conforming, reordered, all-null, one key missing, excess key, wrong type, null in the shared name through validate and through append on frames created from a list / None / a generator and with other record objects (%d cases); the stored row must have one value per column, in column order" % len(dups))
     ctx.note("sizes_scope", "sizes: schemas (and records) of 5 … 1000 columns at and around every power of two x conforming / each offence at the first, second, middle, last-but-one and last column / an excess key first or last / three offences far apart, through validate and append; frames that already hold 99 / 100 / 101 / 999 / 1000 / 1001 rows (list, generator, arrow) with appends and derivations; append histories of 100 … 1000 records; 300 appends alternating between two frames (%d cases)" % len(sizes))
@@ -3066,8 +3477,8 @@ def run(ctx):
         batch = []
         for _ in range(1500):
             r = ctx.rng.random()
-            batch.append(gen_validate(ctx.rng) if r < 0.30 else gen_appends(ctx.rng) if r < 0.45 else gen_session(ctx.rng) if r < 0.65
-                         else gen_bound(ctx.rng) if r < 0.77
+            batch.append(gen_validate(ctx.rng) if r < 0.28 else gen_appends(ctx.rng) if r < 0.43 else gen_reuse(ctx.rng) if r < 0.51
+                         else gen_session(ctx.rng) if r < 0.67 else gen_bound(ctx.rng) if r < 0.77
                          else gen_family(ctx.rng) if r < 0.90 else gen_family(ctx.rng, process=True) if r < 0.96 else gen_dictframe(ctx.rng))
         evaluate(ctx, batch)
         done += len(batch)
@@ -3079,6 +3490,8 @@ def run(ctx):
         evaluate(ctx, batch)
         done += len(batch)
     ctx.note("own_process_runs", PRISTINE.runs)
+    ctx.note("schema_helpers_that_raised_in_a_session", dict(TOUCH_RAISED))
+    ctx.note("defaults_assigned_after_the_constructor_refused_them", {str(k_): v_ for k_, v_ in DEFAULT_SET_AFTERWARDS.items()})
     PRISTINE.stop()
     # the record-size limit of the row serialiser: a conforming record whose packed values take at most 16 MiB — the limit the
     # library states ("Record length cannot exceed 16Mb") — must be stored; past it the append may be refused, atomically
@@ -3200,7 +3613,7 @@ def intensify(ctx):
     for _ in range(5):
         evaluate(ctx, [gen_validate(ctx.rng) for _ in range(2000)] + [gen_appends(ctx.rng) for _ in range(1000)]
                  + [gen_session(ctx.rng) for _ in range(1500)] + [gen_dictframe(ctx.rng) for _ in range(100)]
-                 + [gen_bound(ctx.rng) for _ in range(1500)]
+                 + [gen_bound(ctx.rng) for _ in range(1500)] + [gen_reuse(ctx.rng) for _ in range(1500)]
                  + [gen_family(ctx.rng) for _ in range(1500)] + [gen_family(ctx.rng, process=True) for _ in range(500)]
                  + [dict(gen_family(ctx.rng, process=True, unique=False), pristine=True) for _ in range(150)])
         if ctx.violations:
